@@ -499,6 +499,288 @@ def run_members(case, rec):
         pkg.close()
 
 
+# ---------------------------------------------------------------------------------------
+# histories: operation sequences on one struct instance against a dict model
+
+HIST_OPS = ['set', 'set', 'set', 'bad', 'bad', 'none', 'del', 'read', 'read', 'encode', 'reload', 'eq', 'init']
+
+
+@st.composite
+def object_histories(draw):
+    api = draw(gen.api_models(gen.Cfg(**pyrt.RT_CFG)))
+    idx = M.Index(api)
+    costs = values.Costs(idx)
+    structs = [(n, d) for n, d in idx.types(('struct',))
+               if not d.get('subtypes') and idx.struct_all_fields(n, d)]
+    runs = []
+    for _ in range(draw(st.integers(1, 3)) if structs else 0):
+        n, d = draw(st.sampled_from(structs))
+        fields = [f for _, _, f in idx.struct_all_fields(n, d) if costs.texpr(f['type']) < values.Costs.INF]
+        if not fields:
+            continue
+        ops = []
+        if draw(st.integers(0, 9)) < 6:
+            # start from a complete instance so that encode / reload / eq have something to judge
+            for f in fields:
+                if not idx.is_optional(f):
+                    v = draw(values.value_for(idx, costs, f['type'], fuel=draw(st.integers(0, 1))))
+                    if values.is_complete(v):
+                        ops.append(('set', f['name'], v, None))
+        for _ in range(draw(st.integers(4, 18))):
+            op = draw(st.sampled_from(HIST_OPS))
+            f = draw(st.sampled_from(fields))
+            if op in ('set', 'bad'):
+                v = draw(values.value_for(idx, costs, f['type'], fuel=draw(st.integers(0, 2))))
+                if not values.is_complete(v):
+                    continue
+                mut = None
+                if op == 'bad':
+                    mut = (draw(st.integers(0, 99)), draw(st.integers(0, 99)), draw(st.integers(0, len(WRONG) + 7)))
+                ops.append((op, f['name'], v, mut))
+            elif op == 'reload':
+                ops.append((op, draw(st.booleans())))
+            elif op in ('encode', 'eq', 'init'):
+                ops.append((op,))
+            else:
+                ops.append((op, f['name']))
+        runs.append(((n, d['name']), ops))
+    return {'api': api, 'runs': runs}
+
+
+def diff_class(diff):
+    """Walker difference -> coarse root-cause class (no names, no values)."""
+    for key, cls in (('expected unset', 'set-but-expected-unset'), ('expected set, is unset', 'unset-but-expected-set'),
+                     ('expected instance of', 'wrong-class'), ('expected union instance', 'wrong-class'),
+                     ('list mismatch', 'list-differs'), ('map keys mismatch', 'map-differs'),
+                     ('expected tag', 'tag-differs'), ('expected None', 'not-none'), ('got None', 'none')):
+        if key in diff:
+            return cls
+    return 'value-differs'
+
+
+def _default_matches(bb, f, got):
+    kind, dv = f['default']
+    if kind == 'tag':
+        return isinstance(got, bb.Union) and got._tag == dv and got._value is None
+    if isinstance(dv, bool) or isinstance(got, bool):
+        return type(got) is bool and got == dv
+    if isinstance(dv, (int, float)):
+        return isinstance(got, (int, float)) and float(got) == float(dv)
+    return type(got) is type(dv) and got == dv
+
+
+def run_histories(case, rec):
+    import copy
+    import json
+    from .. import ref_json
+    api = case['api']
+    idx = M.Index(api)
+    pkg, specs = pyrt.build(api, rec)
+    if pkg is None:
+        return
+    ss, bv, bb = pygen.stone_runtime()
+    try:
+        for (ns, name), ops in case['runs']:
+            d = idx.get(ns, name)
+            t = ('ref', ns, name)
+            cls = pkg.cls(ns, name)
+            validator = pkg.validator(ns, name)
+            fdef = {f['name']: f for _, _, f in idx.struct_all_fields(ns, d)}
+            required = [n_ for n_, f in fdef.items() if not idx.is_optional(f)]
+            one = {'api': api, 'runs': [((ns, name), ops)]}
+            inst = cls()
+            model = {}
+            trace = []
+            seen = set()
+
+            def viol(kind, what, detail=''):
+                rec.violation('C08|history|%s|%s' % (kind, detail), '%s.%s: %s; history: %s' % (ns, name, what, ' ; '.join(trace)[-700:]),
+                              case=one, human={'files': specs, 'struct': '%s.%s' % (ns, name), 'history': list(trace)})
+
+            def complete():
+                return all(r in model for r in required)
+
+            def abstract():
+                return ('struct', (ns, name), dict(model))
+            ok = True
+            for op in ops:
+                kind = op[0]
+                fname = op[1] if len(op) > 1 and kind not in ('reload',) else None
+                f = fdef.get(fname) if fname else None
+                if kind in ('set', 'bad'):
+                    try:
+                        valid = values.materialize(pkg, idx, f['type'], op[2])
+                    except Exception:
+                        rec.note('materialize_failed(judged by C04)')
+                        continue
+                if kind == 'set':
+                    trace.append('set %s=%s' % (fname, repr(valid)[:60]))
+                    try:
+                        setattr(inst, fname, valid)
+                    except Exception as e:
+                        viol('rejected-valid', 'assigning a valid value raised %r' % (e,), type_kind(f['type']))
+                        ok = False
+                        break
+                    if op[2] is None:
+                        model.pop(fname, None)
+                    else:
+                        model[fname] = op[2]
+                elif kind == 'bad':
+                    value, label = apply_mutation(pkg, idx, f['type'], valid, op[3], api)
+                    verdict, why = ref_pred(idx, f['type'], value)
+                    if verdict != 'R':
+                        rec.note('history_mutation_not_invalid')
+                        continue
+                    trace.append('set %s=<invalid:%s>' % (fname, label))
+                    try:
+                        setattr(inst, fname, value)
+                        viol('accepted-invalid', 'a value violating the declared type was accepted (%s)' % why, why)
+                        ok = False
+                        break
+                    except bv.ValidationError:
+                        pass
+                    except Exception as e:
+                        viol('wrong-exception', '%s raised instead of ValidationError: %r' % (type(e).__name__, e),
+                             type(e).__name__ + ':' + why)
+                        ok = False
+                        break
+                elif kind == 'none':
+                    verdict, why = ref_pred(idx, f['type'], None)
+                    if verdict == 'U':
+                        continue
+                    trace.append('set %s=None' % fname)
+                    try:
+                        setattr(inst, fname, None)
+                        if verdict == 'R':
+                            viol('accepted-invalid', 'None was accepted for a non-nullable field', 'none')
+                            ok = False
+                            break
+                        model.pop(fname, None)
+                    except bv.ValidationError as e:
+                        if verdict == 'A':
+                            viol('rejected-valid', 'None was refused for a nullable field: %s' % e, 'none')
+                            ok = False
+                            break
+                    except Exception as e:
+                        viol('wrong-exception', 'assigning None raised %r' % (e,), type(e).__name__ + ':none')
+                        ok = False
+                        break
+                elif kind == 'del':
+                    trace.append('del %s' % fname)
+                    try:
+                        delattr(inst, fname)
+                    except Exception as e:
+                        viol('delete-raised', 'deleting a field raised %r' % (e,), type(e).__name__)
+                        ok = False
+                        break
+                    model.pop(fname, None)
+                elif kind == 'read':
+                    trace.append('read %s' % fname)
+                    try:
+                        got = getattr(inst, fname)
+                        raised = None
+                    except AttributeError as e:
+                        got, raised = None, e
+                    except Exception as e:
+                        viol('read-raised', 'reading a field raised %r' % (e,), type(e).__name__)
+                        ok = False
+                        break
+                    if fname in model:
+                        bad = 'raised %r' % (raised,) if raised else values.same(idx, f['type'], got, model[fname])
+                        if bad:
+                            viol('read-differs', 'set field reads back differently: %s' % bad, type_kind(f['type']))
+                            ok = False
+                            break
+                    elif idx.is_nullable(f['type']):
+                        if raised or got is not None:
+                            viol('read-differs', 'unset nullable field reads %r / %r, expected None' % (got, raised), 'unset-nullable')
+                            ok = False
+                            break
+                    elif f.get('default') is not None:
+                        b = idx.base(f['type'])
+                        if b[0] == 'prim' and b[1] in ('Bytes', 'Timestamp'):
+                            rec.note('bytes_timestamp_default_read(judged by C10)')
+                        elif raised or not _default_matches(bb, f, got):
+                            viol('read-differs', 'unset defaulted field reads %r / %r, declared default %r' % (
+                                got, raised, f['default']), 'unset-default')
+                            ok = False
+                            break
+                    elif raised is None:
+                        viol('read-differs', 'unset required field reads %r instead of raising AttributeError' % (got,), 'unset-required')
+                        ok = False
+                        break
+                elif kind in ('encode', 'reload'):
+                    trace.append(kind if kind == 'encode' else 'reload(strict=%s)' % op[1])
+                    try:
+                        enc = ss.json_compat_obj_encode(validator, inst)
+                        if not complete():
+                            viol('encoded-incomplete', 'an instance with an unset required field was encoded: %s' % json.dumps(enc)[:200], '')
+                            ok = False
+                            break
+                    except bv.ValidationError as e:
+                        if complete():
+                            viol('encode-rejects', 'a complete instance was refused by the encoder: %s' % e, pyrt.path_kind(str(e)))
+                            ok = False
+                            break
+                        continue
+                    except Exception as e:
+                        viol('encode-raised', 'encoding raised %r' % (e,), core.stone_frame_sig(e))
+                        ok = False
+                        break
+                    exp = ref_json.encode(idx, t, abstract())
+                    if not ref_json.json_equal(json.loads(json.dumps(enc)), exp):
+                        viol('encode-differs', 'encoding %s, the state built so far prescribes %s' % (
+                            json.dumps(enc)[:300], json.dumps(exp)[:300]), '')
+                        ok = False
+                        break
+                    if kind == 'reload':
+                        try:
+                            inst = ss.json_compat_obj_decode(validator, copy.deepcopy(enc), strict=op[1])
+                        except Exception as e:
+                            viol('reload-raised', 'decoding the encoding of the current state raised %r' % (e,),
+                                 core.stone_frame_sig(e))
+                            ok = False
+                            break
+                        model = dict(values.norm_roundtrip(idx, t, abstract())[2])
+                elif kind == 'eq':
+                    if not complete():
+                        continue      # == on an instance with unset required fields is not claimed
+                    trace.append('eq')
+                    try:
+                        fresh = values.materialize(pkg, idx, t, abstract())
+                        if not (inst == fresh) or (inst != fresh):
+                            viol('eq-differs', 'the instance is not == to a fresh instance holding the same fields', '')
+                            ok = False
+                            break
+                    except Exception as e:
+                        viol('eq-raised', 'building / comparing a fresh instance raised %r' % (e,), type(e).__name__)
+                        ok = False
+                        break
+                elif kind == 'init':
+                    trace.append('init(**state)')
+                    try:
+                        kw = {n_: values.materialize(pkg, idx, fdef[n_]['type'], v) for n_, v in model.items()}
+                        inst = cls(**kw)
+                    except Exception as e:
+                        viol('init-raised', 'constructing from the current fields raised %r' % (e,), type(e).__name__)
+                        ok = False
+                        break
+                seen.add(kind)
+                diff = values.same(idx, t, inst, abstract())
+                if diff:
+                    viol('state-differs', 'after the history the instance differs from the model: %s' % diff,
+                         kind + '|' + diff_class(diff))
+                    ok = False
+                    break
+            nontriv = ok and len(seen) >= 3 and bool(seen & {'bad', 'del', 'none'}) and bool(seen & {'read', 'encode', 'reload', 'eq'})
+            rec.case(core.h64((repr(specs), ns, name, repr(ops))), nontriv,
+                     classes=['hist:' + k for k in sorted(seen)] + ['hist_len:%d' % min(len(trace) // 4 * 4, 16)],
+                     sample=lambda: {'struct': '%s.%s' % (ns, name), 'history': list(trace)[:12]})
+    finally:
+        pkg.close()
+
+
 def parts(ctx):
     return [Part('grid', run_grid, enumerate=grid_enum, exhaustive=True),
-            Part('members', run_members, strategy=member_values(), n=ctx.n(600, 8000), budget_s=ctx.n(120, 3000))]
+            Part('members', run_members, strategy=member_values(), n=ctx.n(600, 8000), budget_s=ctx.n(120, 3000)),
+            Part('histories', run_histories, strategy=object_histories(), n=ctx.n(1600, 20000), budget_s=ctx.n(120, 3000))]
